@@ -35,9 +35,17 @@ Mk(m, hs) == [kind |-> RecognizeKind(hs), old |-> m.old, new |-> m.new, ren |-> 
 \* a patch without hunks exists only with extended headers (git metadata)
 Producible(m, hs) == hs # <<>> \/ m.ren \/ m.operm # NONE \/ m.nperm # NONE \/ m.hash
 
+\* git's creation / deletion of a zero-length file (one hunk without lines, /dev/null on the other side)
+EmptyFilePatches ==
+  {[kind |-> "C", old |-> NULL, new |-> n, ren |-> FALSE, operm |-> NONE, nperm |-> "100644", ohash |-> h[1], nhash |-> h[2], hunks |-> <<EmptyHunk>>] :
+       n \in Names \ {NULL}, h \in {<<NONE, NONE>>, <<"0000000", "e69de29">>}}
+  \cup {[kind |-> "D", old |-> n, new |-> NULL, ren |-> FALSE, operm |-> "100755", nperm |-> NONE, ohash |-> NONE, nhash |-> NONE, hunks |-> <<EmptyHunk>>] :
+       n \in Names \ {NULL}}
+
 Init == fps = <<>> /\ ph = 0
 Next == /\ ph < MaxFPs /\ ph' = ph + 1
-        /\ \E m \in Metas : \E hs \in HunkLists : Producible(m, hs) /\ fps' = Append(fps, Mk(m, hs))
+        /\ \/ \E m \in Metas : \E hs \in HunkLists : Producible(m, hs) /\ fps' = Append(fps, Mk(m, hs))
+           \/ \E e \in EmptyFilePatches : fps' = Append(fps, e)
 
 RoundTrip == fps # <<>> =>
    LET w == Write(fps)
